@@ -293,7 +293,36 @@ pub fn directed(f: &mut Forest) -> Vec<(Id, Id)> {
         .collect()
 }
 
+/// non-tail recursion `count(n) = n ? count(n-1) + 1 : 0`: three reclamation candidates stay pending per level
+pub fn deep_recursion(f: &mut Forest, n: u64) -> (Id, Id) {
+    let prog = sexp::parse(
+        f,
+        "(a (q . (a 2 (c 2 (c 5 ())))) (c (q . (a (i 5 (q . (+ (a 2 (c 2 (c (- 5 (q . 1)) ()))) (q . 1))) (q . (q . ()))) 1)) 1))",
+        &[],
+    );
+    let nn = f.int(n as i128);
+    let env = f.list(&[nn]);
+    (prog, env)
+}
+
 pub fn run(ctx: &mut Ctx) {
+    // deep nesting of pending reclamation candidates (tens of thousands of open checkpoints)
+    {
+        let depths: &[u64] = if ctx.miri { &[40] } else if ctx.light { &[3000] } else { &[2000, 5400, 5500, 7000, 12000] };
+        for (k, n) in depths.iter().enumerate() {
+            let cid = DIRECTED | (1 << 40) | k as u64;
+            if !ctx.want(cid) {
+                continue;
+            }
+            let mut f = Forest::new();
+            let (p, e) = deep_recursion(&mut f, *n);
+            let mut r = ctx.rng(cid);
+            for b in [ClvmFlags::empty(), ClvmFlags::NO_UNKNOWN_OPS | ClvmFlags::NEW_COST_MODEL] {
+                one_case_repr(ctx, &mut r, &f, p, e, b, 0);
+            }
+            ctx.count("deep_recursion_cases");
+        }
+    }
     // directed cases × base flag sets
     let mut f = Forest::new();
     let d = directed(&mut f);
